@@ -74,7 +74,7 @@ Proof.
     constructor; [apply stmt_lt_wf, E|constructor].
   - destruct (recording st); [|exact H]. cbn. eapply Forall_impl; [|exact H]. intros s. apply wf_mono. lia.
   - cbn. constructor.
-  - destruct (init st); [destruct (Nat.ltb i (ngrad st))|cbn [initialize ngrad]; destruct (Nat.ltb i (ngrad st))]; cbn; exact H.
+  - destruct (init st); [destruct (Nat.ltb i (ninit st))|cbn [initialize ninit]; destruct (Nat.ltb i (ngrad st))]; cbn; exact H.
   - destruct (init st); cbn; exact H.
   - destruct (init st); cbn; exact H.
   - destruct (recording st && stmt_lt (ngrad st) _) eqn:E; [|exact H]. apply andb_true_iff in E. cbn. apply Forall_app. split; [exact H|].
@@ -87,29 +87,35 @@ Lemma prun_inv ops : forall st, PInv st -> PInv (prun ops st).
 Proof. induction ops as [|o ops IH]; intros st H; [exact H|]. cbn. apply IH, pstep_inv, H. Qed.
 
 (* ---- replay: a pass after clear_gradients and seeds depends on the tape and the seeds only *)
-Lemma seeds_run seeds : forall (st : pstate) g, init st = true -> agree (ngrad st) (buf st) g ->
+Lemma seeds_run seeds : forall (st : pstate) g, init st = true -> ninit st = ngrad st -> agree (ngrad st) (buf st) g ->
   let st' := prun (map (fun ix => OSeed (fst ix) (snd ix)) seeds) st in
-  init st' = true /\ ngrad st' = ngrad st /\ tp st' = tp st /\ indep st' = indep st /\ dep st' = dep st /\ recording st' = recording st /\
+  init st' = true /\ ngrad st' = ngrad st /\ ninit st' = ngrad st /\ tp st' = tp st /\ indep st' = indep st /\ dep st' = dep st /\ recording st' = recording st /\
   agree (ngrad st) (buf st') (fold_left (fun g ix => if Nat.ltb (fst ix) (ngrad st) then upd g (fst ix) (snd ix) else g) seeds g).
 Proof.
-  induction seeds as [|[i x] seeds IH]; intros st g Hi Ha; cbn [map prun fold_left].
+  induction seeds as [|[i x] seeds IH]; intros st g Hi Hni Ha; cbn [map prun fold_left].
   - repeat split; try reflexivity; assumption.
-  - cbn [pstep fst snd]. rewrite Hi. destruct (Nat.ltb i (ngrad st)) eqn:E.
+  - cbn [pstep fst snd]. rewrite Hi, Hni. destruct (Nat.ltb i (ngrad st)) eqn:E.
     + match goal with |- context [fold_left (Protocol.pstep O) _ ?s] => set (s1 := s) end.
-      assert (init s1 = true /\ ngrad s1 = ngrad st) as [Hi1 Hn1] by (split; reflexivity).
+      assert (init s1 = true /\ ngrad s1 = ngrad st /\ ninit s1 = ngrad st) as (Hi1 & Hn1 & Hni1) by (repeat split; try reflexivity; exact Hni).
       assert (agree (ngrad s1) (buf s1) (upd g i x)) as Ha1 by (rewrite Hn1; cbn; apply agree_upd, Ha).
-      destruct (IH s1 (upd g i x) Hi1 Ha1) as (A & B & C & D & E' & F & G). fold (prun (map (fun ix => OSeed (fst ix) (snd ix)) seeds) s1).
+      assert (ninit s1 = ngrad s1) as Hq by (rewrite Hni1, Hn1; reflexivity).
+      destruct (IH s1 (upd g i x) Hi1 Hq Ha1) as (A & B & C' & D & E' & F & G & H). fold (prun (map (fun ix => OSeed (fst ix) (snd ix)) seeds) s1).
       rewrite Hn1 in *. repeat split; try assumption.
     + match goal with |- context [fold_left (Protocol.pstep O) _ ?s] => set (s1 := s) end.
-      assert (init s1 = true /\ ngrad s1 = ngrad st) as [Hi1 Hn1] by (split; [exact Hi|reflexivity]).
+      assert (init s1 = true /\ ngrad s1 = ngrad st /\ ninit s1 = ngrad st) as (Hi1 & Hn1 & Hni1) by (repeat split; try reflexivity; assumption).
       assert (agree (ngrad s1) (buf s1) g) as Ha1 by (rewrite Hn1; exact Ha).
-      destruct (IH s1 g Hi1 Ha1) as (A & B & C & D & E' & F & G). fold (prun (map (fun ix => OSeed (fst ix) (snd ix)) seeds) s1).
+      assert (ninit s1 = ngrad s1) as Hq by (rewrite Hni1, Hn1; reflexivity).
+      destruct (IH s1 g Hi1 Hq Ha1) as (A & B & C' & D & E' & F & G & H). fold (prun (map (fun ix => OSeed (fst ix) (snd ix)) seeds) s1).
       rewrite Hn1 in *. repeat split; try assumption.
 Qed.
 
 Definition pass_ops (seeds : list (nat * T)) (pass : pop) : list pop :=
   OClearGradients :: map (fun ix => OSeed (fst ix) (snd ix)) seeds ++ [pass].
 
+Lemma extend_agree (st : pstate) n : ninit st = ngrad st -> agree n (buf (extend O st)) (buf st).
+Proof.
+  intros H i _. cbn [extend buf]. rewrite H. destruct (Nat.leb_spec (ngrad st) i); destruct (Nat.ltb_spec i (ngrad st)); cbn; try reflexivity. lia.
+Qed.
 Theorem replay st i0 x0 seeds : PInv st ->
   let n := ngrad st in let sv := seedvec O n ((i0, x0) :: seeds) in
   agree n (buf (prun (pass_ops ((i0, x0) :: seeds) OForward) st)) (fwd_sweep O (tp st) sv) /\
@@ -117,65 +123,75 @@ Theorem replay st i0 x0 seeds : PInv st ->
   tp (prun (pass_ops ((i0, x0) :: seeds) OForward) st) = tp st /\ tp (prun (pass_ops ((i0, x0) :: seeds) OReverse) st) = tp st.
 Proof.
   intros Hinv n sv.
-  (* state after clear_gradients and the first seed: initialised, zero on [0,n) apart from the seed *)
   set (st0 := pstep st OClearGradients).
   set (st1 := pstep st0 (OSeed i0 x0)).
-  assert (init st1 = true /\ ngrad st1 = n /\ tp st1 = tp st /\
-          agree n (buf st1) (if Nat.ltb i0 n then upd (fun _ => o0 O) i0 x0 else (fun _ => o0 O))) as (Hi & Hn & Ht & Ha).
-  { unfold st1, st0. cbn [pstep init initialize ngrad]. fold n. destruct (Nat.ltb i0 n) eqn:E; cbn; repeat split; try reflexivity.
+  assert (init st1 = true /\ ngrad st1 = n /\ ninit st1 = n /\ tp st1 = tp st /\
+          agree n (buf st1) (if Nat.ltb i0 n then upd (fun _ => o0 O) i0 x0 else (fun _ => o0 O))) as (Hi & Hn & Hni & Ht & Ha).
+  { unfold st1, st0. cbn [pstep init initialize ngrad ninit]. fold n. destruct (Nat.ltb i0 n) eqn:E; cbn; repeat split; try reflexivity.
     - apply agree_upd. intros i Hi. apply Nat.ltb_lt in Hi. rewrite Hi. reflexivity.
     - intros i Hi. apply Nat.ltb_lt in Hi. rewrite Hi. reflexivity. }
   assert (forall pass, prun (pass_ops ((i0, x0) :: seeds) pass) st = pstep (prun (map (fun ix => OSeed (fst ix) (snd ix)) seeds) st1) pass) as Hrun.
   { intros pass. unfold pass_ops, prun. cbn [map fold_left fst snd]. rewrite fold_left_app. reflexivity. }
-  rewrite <- Hn in Ha.
-  destruct (seeds_run seeds st1 _ Hi Ha) as (A & B & C & _ & _ & _ & G). rewrite Hn in *.
+  rewrite <- Hn in Ha. assert (ninit st1 = ngrad st1) as Hq by (rewrite Hni, Hn; reflexivity).
+  destruct (seeds_run seeds st1 _ Hi Hq Ha) as (A & B & B' & C' & _ & _ & _ & G). rewrite Hn in *.
   set (st2 := prun (map (fun ix => OSeed (fst ix) (snd ix)) seeds) st1) in *.
   assert (agree n (buf st2) sv) as Hsv.
   { unfold sv, seedvec. cbn [fold_left fst snd]. exact G. }
-  rewrite !Hrun. cbn [pstep]. rewrite A. cbn [buf tp set_buf]. rewrite C, Ht.
+  assert (agree n (buf (extend O st2)) sv) as Hsv2.
+  { assert (ninit st2 = ngrad st2) as Hq2 by (rewrite B', B; reflexivity).
+    intros i Hi'. rewrite (extend_agree st2 n Hq2 i Hi'). apply Hsv. exact Hi'. }
+  rewrite !Hrun. cbn [pstep]. rewrite A. cbn [buf tp extend]. rewrite C', Ht.
   repeat split; try reflexivity.
-  - apply fwd_agree; [exact Hinv|exact Hsv].
-  - apply rev_agree; [exact Hinv|exact Hsv].
+  - apply fwd_agree; [exact Hinv|exact Hsv2].
+  - apply rev_agree; [exact Hinv|exact Hsv2].
 Qed.
 
 (* ---- observational equivalence: states that differ only in stale buffer contents, allocation and error counts *)
 Definition sim (a b : pstate) : Prop :=
   tp a = tp b /\ init a = init b /\ ngrad a = ngrad b /\ indep a = indep b /\ dep a = dep b /\ recording a = recording b /\
-  (init a = true -> agree (ngrad a) (buf a) (buf b)).
+  (init a = true -> ninit a = ninit b /\ agree (ngrad a) (buf a) (buf b)).
 (* the documented protocol: active objects are not created between seeding and clear_gradients *)
 Definition respects (st : pstate) (o : pop) : Prop := match o with ORegister _ => init st = false | _ => True end.
 Lemma sim_seed a b i x : sim a b -> sim (pstep a (OSeed i x)) (pstep b (OSeed i x)).
 Proof.
   intros (Ht & Hi & Hn & Hx & Hd & Hr & Hb). cbn [pstep]. rewrite <- Hi. destruct (init a) eqn:Ei.
-  - rewrite <- Hn. destruct (Nat.ltb i (ngrad a)) eqn:E.
-    + unfold sim; cbn. repeat split; try assumption; try congruence. intros _. apply agree_upd, Hb. reflexivity.
-    + unfold sim, add_err; cbn. repeat split; try assumption; try congruence. intros _. apply Hb. reflexivity.
-  - cbn [initialize ngrad]. rewrite <- Hn. destruct (Nat.ltb i (ngrad a)) eqn:E.
-    + unfold sim; cbn. rewrite <- ?Hn. repeat split; try assumption; try congruence. intros _. apply agree_upd. intros j Hj. apply Nat.ltb_lt in Hj. rewrite Hj. reflexivity.
-    + unfold sim, add_err; cbn. rewrite <- ?Hn. repeat split; try assumption; try congruence. intros _ j Hj. apply Nat.ltb_lt in Hj. rewrite Hj. reflexivity.
+  - destruct (Hb eq_refl) as [Hni Hag]. rewrite <- Hni. destruct (Nat.ltb i (ninit a)) eqn:E.
+    + unfold sim; cbn. repeat split; try assumption; try congruence. apply agree_upd, Hag.
+    + unfold sim, add_err; cbn. repeat split; try assumption; try congruence.
+  - cbn [initialize ninit]. rewrite <- Hn. destruct (Nat.ltb i (ngrad a)) eqn:E.
+    + unfold sim; cbn. rewrite <- ?Hn. repeat split; try assumption; try congruence. apply agree_upd. intros j Hj. apply Nat.ltb_lt in Hj. rewrite Hj. reflexivity.
+    + unfold sim, add_err; cbn. rewrite <- ?Hn. repeat split; try assumption; try congruence. intros j Hj. apply Nat.ltb_lt in Hj. rewrite Hj. reflexivity.
+Qed.
+Lemma extend_sim_agree a b : ngrad a = ngrad b -> ninit a = ninit b -> agree (ngrad a) (buf a) (buf b) ->
+  agree (ngrad a) (buf (extend O a)) (buf (extend O b)).
+Proof.
+  intros Hn Hni Hag j Hj. cbn [extend buf]. rewrite <- Hn, <- Hni.
+  destruct (Nat.leb (ninit a) j && Nat.ltb j (ngrad a)); [reflexivity|apply Hag; exact Hj].
 Qed.
 Lemma sim_step a b o : PInv a -> respects a o -> sim a b -> sim (pstep a o) (pstep b o).
 Proof.
   intros Hinv Hresp Hs. assert (Hs' := Hs). destruct Hs as (Ht & Hi & Hn & Hx & Hd & Hr & Hb).
   destruct o; try (apply sim_seed; exact Hs'); unfold sim; cbn [pstep]; rewrite <- ?Ht, <- ?Hi, <- ?Hn, <- ?Hx, <- ?Hd, <- ?Hr.
-  - destruct (recording a && stmt_lt (ngrad a) s) eqn:Er; cbn; rewrite <- ?Ht; repeat split; try assumption; try reflexivity; try congruence.
-  - cbn in Hresp. destruct (recording a) eqn:Er; cbn; repeat split; try assumption; try reflexivity; try congruence.
+  - destruct (recording a && stmt_lt (ngrad a) s) eqn:Er; cbn; rewrite <- ?Ht; repeat split; try assumption; try reflexivity; try congruence; try (apply Hb; assumption).
+  - cbn in Hresp. destruct (recording a) eqn:Er; cbn; repeat split; try assumption; try reflexivity; try congruence; try (apply Hb; assumption).
     all: try (intros Hia; rewrite Hresp in Hia; discriminate).
   - cbn. repeat split; try reflexivity; try assumption; try congruence.
-  - destruct (init a) eqn:Ei; cbn; rewrite <- ?Ht; repeat split; try assumption; try reflexivity; try congruence.
-    intros _. apply fwd_agree; [exact Hinv|]. apply Hb. reflexivity.
-  - destruct (init a) eqn:Ei; cbn; rewrite <- ?Ht; repeat split; try assumption; try reflexivity; try congruence.
-    intros _. apply rev_agree; [exact Hinv|]. apply Hb. reflexivity.
+  - destruct (init a) eqn:Ei; cbn; rewrite <- ?Ht, <- ?Hn; repeat split; try assumption; try reflexivity; try congruence; try (apply Hb; reflexivity).
+    destruct (Hb eq_refl) as [Hni Hag]. apply (fwd_agree (ngrad a) (tp a) _ _ Hinv). intros j Hj. cbn beta. rewrite <- Hni.
+    destruct (Nat.leb (ninit a) j && Nat.ltb j (ngrad a)); [reflexivity|apply Hag; exact Hj].
+  - destruct (init a) eqn:Ei; cbn; rewrite <- ?Ht, <- ?Hn; repeat split; try assumption; try reflexivity; try congruence; try (apply Hb; reflexivity).
+    destruct (Hb eq_refl) as [Hni Hag]. apply (rev_agree (ngrad a) (tp a) _ _ Hinv). intros j Hj. cbn beta. rewrite <- Hni.
+    destruct (Nat.leb (ninit a) j && Nat.ltb j (ngrad a)); [reflexivity|apply Hag; exact Hj].
   - cbn. repeat split; try assumption; try reflexivity; try congruence.
-  - cbn. rewrite Hx. repeat split; try assumption; try reflexivity; try congruence.
-  - cbn. rewrite Hd. repeat split; try assumption; try reflexivity; try congruence.
-  - cbn. repeat split; try assumption; try reflexivity; try congruence.
-  - cbn. repeat split; try assumption; try reflexivity; try congruence.
-  - cbn. repeat split; try assumption; try reflexivity; try congruence.
-  - cbn. repeat split; try assumption; try reflexivity; try congruence.
-  - destruct (recording a && stmt_lt (ngrad a) _) eqn:Er; cbn; rewrite <- ?Ht; repeat split; try assumption; try reflexivity; try congruence.
-  - destruct (recording a && forallb _ ops) eqn:Er; [|repeat split; assumption].
-    destruct (append_last (tp a) l (drop_zeros O ops)); cbn; repeat split; try assumption; try reflexivity; try congruence.
+  - cbn. rewrite Hx. repeat split; try assumption; try reflexivity; try congruence; try (apply Hb; assumption).
+  - cbn. rewrite Hd. repeat split; try assumption; try reflexivity; try congruence; try (apply Hb; assumption).
+  - cbn. repeat split; try assumption; try reflexivity; try congruence; try (apply Hb; assumption).
+  - cbn. repeat split; try assumption; try reflexivity; try congruence; try (apply Hb; assumption).
+  - cbn. repeat split; try assumption; try reflexivity; try congruence; try (apply Hb; assumption).
+  - cbn. repeat split; try assumption; try reflexivity; try congruence; try (apply Hb; assumption).
+  - destruct (recording a && stmt_lt (ngrad a) _) eqn:Er; cbn; rewrite <- ?Ht; repeat split; try assumption; try reflexivity; try congruence; try (apply Hb; assumption).
+  - destruct (recording a && forallb _ ops) eqn:Er; [|repeat split; try assumption; try reflexivity; try congruence; try (apply Hb; assumption)].
+    destruct (append_last (tp a) l (drop_zeros O ops)); cbn; repeat split; try assumption; try reflexivity; try congruence; try (apply Hb; assumption).
 Qed.
 
 Fixpoint respects_all (st : pstate) (ops : list pop) : Prop :=
@@ -185,11 +201,29 @@ Proof.
   induction ops as [|o ops IH]; intros a b Hinv Hr Hs; [exact Hs|]. destruct Hr as [Hr1 Hr2]. cbn.
   apply IH; [apply pstep_inv, Hinv|exact Hr2|apply sim_step; assumption].
 Qed.
-Lemma sim_obs a b : sim a b -> (forall i, obs_gradient a i = obs_gradient b i) /\ obs_jacobian O a = obs_jacobian O b /\ obs_counts a = obs_counts b.
+Definition NInv (st : pstate) : Prop := init st = true -> ninit st <= ngrad st.
+Lemma pstep_ninv st o : NInv st -> NInv (pstep st o).
 Proof.
-  intros (Ht & Hi & Hn & Hx & Hd & Hr & Hb). repeat split.
-  - intros i. unfold obs_gradient. rewrite <- Hi, <- Hn. destruct (init a) eqn:Ei; [|reflexivity]. cbn.
-    destruct (Nat.ltb_spec i (ngrad a)); [|reflexivity]. rewrite (Hb eq_refl i) by assumption. reflexivity.
+  unfold NInv. intros H. destruct o; cbn [pstep]; try exact H.
+  - destruct (recording st && stmt_lt (ngrad st) s); cbn; exact H.
+  - destruct (recording st); cbn; [|exact H]. intros Hi. specialize (H Hi). lia.
+  - cbn. intros Hf; discriminate.
+  - destruct (init st) eqn:Ei; [destruct (Nat.ltb i (ninit st))|cbn [initialize ninit]; destruct (Nat.ltb i (ngrad st))]; cbn; intros _; try (apply H; reflexivity); lia.
+  - destruct (init st) eqn:Ei; cbn; intros Hi; [apply H; reflexivity|congruence].
+  - destruct (init st) eqn:Ei; cbn; intros Hi; [apply H; reflexivity|congruence].
+  - cbn. intros Hf; discriminate.
+  - destruct (recording st && stmt_lt (ngrad st) _); cbn; exact H.
+  - destruct (recording st && forallb _ ops); [|exact H]. destruct (append_last (tp st) l (drop_zeros O ops)); cbn; exact H.
+Qed.
+Lemma prun_ninv ops : forall st, NInv st -> NInv (prun ops st).
+Proof. induction ops as [|o ops IH]; intros st H; [exact H|]. cbn. apply IH, pstep_ninv, H. Qed.
+
+Lemma sim_obs a b : NInv a -> sim a b -> (forall i, obs_gradient a i = obs_gradient b i) /\ obs_jacobian O a = obs_jacobian O b /\ obs_counts a = obs_counts b.
+Proof.
+  intros Hni (Ht & Hi & Hn & Hx & Hd & Hr & Hb). repeat split.
+  - intros i. unfold obs_gradient. rewrite <- Hi. destruct (init a) eqn:Ei; [|reflexivity]. cbn.
+    destruct (Hb eq_refl) as [Hq Hag]. rewrite <- Hq. destruct (Nat.ltb_spec i (ninit a)) as [Hl|Hg]; [|reflexivity].
+    rewrite (Hag i) by (specialize (Hni Ei); lia). reflexivity.
   - unfold obs_jacobian. rewrite Ht, Hx, Hd. reflexivity.
   - unfold obs_counts. rewrite Ht. reflexivity.
 Qed.
@@ -200,8 +234,10 @@ Theorem new_recording_forgets a b ig ops : recording a = recording b ->
   let a' := prun ops (pstep a (ONewRecording ig)) in let b' := prun ops (pstep b (ONewRecording ig)) in
   (forall i, obs_gradient a' i = obs_gradient b' i) /\ obs_jacobian O a' = obs_jacobian O b' /\ obs_counts a' = obs_counts b'.
 Proof.
-  intros Hrec Hresp. apply sim_obs. apply sim_run; [cbn; constructor|exact Hresp|].
-  unfold sim. cbn. repeat split; try reflexivity; [exact Hrec|]. intros H; discriminate.
+  intros Hrec Hresp. apply sim_obs.
+  - apply prun_ninv. unfold NInv. cbn. intros H; discriminate.
+  - apply sim_run; [cbn; constructor|exact Hresp|].
+    unfold sim. cbn. split; [reflexivity|]. split; [reflexivity|]. split; [reflexivity|]. split; [reflexivity|]. split; [reflexivity|]. split; [exact Hrec|]. intros H; discriminate.
 Qed.
 (* ... and is empty: no statement, no seed, no variable list *)
 Theorem new_recording_state st ig : let s := pstep st (ONewRecording ig) in
@@ -232,4 +268,60 @@ Proof.
   intros Hr Hl. exists (mkStmt l (drop_zeros O ops)). cbn [pstep]. rewrite Hr, Hl. cbn. split; [reflexivity|].
   unfold fwd1. cbn [lhs rhs]. rewrite rhs_val_drop_zeros. reflexivity.
 Qed.
+
+(* ---- C11: misuse of the protocol never reaches beyond the gradient list, raises the documented kind, and leaves
+   the state usable *)
+Definition CapInv (st : pstate) : Prop := oob st = 0 /\ (init st = true -> ninit st <= nalloc st).
+Lemma pstep_cap st o : CapInv st -> CapInv (pstep st o).
+Proof.
+  unfold CapInv. intros [H0 H]. destruct o; cbn [pstep]; try (split; assumption).
+  - destruct (recording st && stmt_lt (ngrad st) s); cbn; split; assumption.
+  - destruct (recording st); cbn; split; assumption.
+  - cbn. split; [exact H0|intros Hf; discriminate].
+  - destruct (init st) eqn:Ei.
+    + destruct (Nat.ltb_spec i (ninit st)) as [Hl|Hg]; cbn; [|split; [exact H0|intros _; apply H; reflexivity]].
+      specialize (H eq_refl). destruct (Nat.ltb_spec i (nalloc st)); [|lia]. split; [exact H0|intros _; exact H].
+    + cbn [initialize ninit]. destruct (Nat.ltb_spec i (ngrad st)) as [Hl|Hg]; cbn.
+      * destruct (Nat.ltb_spec i (Nat.max (nalloc st) (ngrad st))); [|lia]. split; [exact H0|intros _; lia].
+      * split; [exact H0|intros _; lia].
+  - destruct (init st) eqn:Ei; cbn; [|split; [exact H0|intros Hf; congruence]].
+    unfold sweep_oob. cbn. destruct (Nat.leb_spec (ngrad st) (Nat.max (nalloc st) (ngrad st))); [|lia]. specialize (H eq_refl). split; [exact H0|intros _; lia].
+  - destruct (init st) eqn:Ei; cbn; [|split; [exact H0|intros Hf; congruence]].
+    unfold sweep_oob. cbn. destruct (Nat.leb_spec (ngrad st) (Nat.max (nalloc st) (ngrad st))); [|lia]. specialize (H eq_refl). split; [exact H0|intros _; lia].
+  - cbn. split; [exact H0|intros Hf; discriminate].
+  - destruct (recording st && stmt_lt (ngrad st) _); cbn; split; assumption.
+  - destruct (recording st && forallb _ ops); [|split; assumption]. destruct (append_last (tp st) l (drop_zeros O ops)); cbn; split; assumption.
+Qed.
+Theorem no_out_of_bounds ops : oob (prun ops (pinit O)) = 0.
+Proof.
+  assert (forall l st, CapInv st -> CapInv (prun l st)) as Hrun.
+  { induction l as [|o l IH]; intros st H; [exact H|]. cbn. apply IH, pstep_cap, H. }
+  apply (Hrun ops (pinit O)). unfold CapInv. cbn. split; [reflexivity|intros Hf; discriminate].
+Qed.
+Theorem misuse_kinds (st : pstate) :
+  (init st = false -> pstep st OForward = add_err st ENotInit /\ pstep st OReverse = add_err st ENotInit /\ forall i, obs_gradient_error st i = Some ENotInit) /\
+  (init st = true -> forall i x, ninit st <= i -> pstep st (OSeed i x) = add_err st ERange /\ obs_gradient_error st i = Some ERange) /\
+  (recording st = true -> forall l ops, forallb (fun mi => Nat.ltb (snd mi) (ngrad st)) ops = true -> append_last (tp st) l (drop_zeros O ops) = None ->
+     pstep st (OAppendDep l ops) = add_err st EWrongGradient).
+Proof.
+  split; [|split].
+  - intros H. split; [|split].
+    + cbn [pstep]. rewrite H. reflexivity.
+    + cbn [pstep]. rewrite H. reflexivity.
+    + intros i. unfold obs_gradient_error. rewrite H. reflexivity.
+  - intros H i x Hi. split.
+    + cbn [pstep]. rewrite H. destruct (Nat.ltb_spec i (ninit st)); [lia|reflexivity].
+    + unfold obs_gradient_error. rewrite H. cbn. destruct (Nat.ltb_spec i (ninit st)); [lia|reflexivity].
+  - intros H l ops H0 H1. cbn [pstep]. rewrite H, H0, H1. reflexivity.
+Qed.
+(* an exception changes nothing but the list of exceptions, so every invariant and the replay theorem still apply *)
+Theorem misuse_recoverable st k : tp (add_err st k) = tp st /\ buf (add_err st k) = buf st /\ init (add_err st k) = init st /\ ngrad (add_err st k) = ngrad st /\
+  ninit (add_err st k) = ninit st /\ indep (add_err st k) = indep st /\ dep (add_err st k) = dep st /\ recording (add_err st k) = recording st /\
+  (PInv st -> PInv (add_err st k)).
+Proof. repeat split. intros H. exact H. Qed.
+(* objects created after the gradients were initialised have indices at or beyond the initialised length *)
+Theorem late_objects_out_of_range st k : NInv st -> init st = true -> recording st = true ->
+  ninit (pstep st (ORegister k)) <= ngrad st /\ ngrad (pstep st (ORegister k)) = Nat.max (ngrad st) k.
+Proof. intros H Hi Hr. cbn [pstep]. rewrite Hr. cbn. split; [apply H, Hi|reflexivity]. Qed.
 End ProtocolProofs.
+
